@@ -107,6 +107,11 @@ def r09_1_2(run):
     ok = ('addCallback', 'issue_stream_attach') in names and names[-1] == ('addErrback', 'self._attacher_error') and \
         names.count(('addCallback', 'issue_stream_attach')) == 1
     run.ob('R09.2', ma, ma.node, 'one decision callback, chain ends in addErrback(self._attacher_error)', ok, slot='chain', message='attacher chain is %s' % names)
+    okc = ('addCallback', 'maybe_coroutine') in names and ('addCallback', 'issue_stream_attach') in names and \
+        names.index(('addCallback', 'maybe_coroutine')) < names.index(('addCallback', 'issue_stream_attach'))
+    run.ob('R09.2', ma, ma.node, "an answer that is (or fires with) a coroutine is awaited before it is judged", okc, slot='chain-coroutine',
+           message='the attacher chain %s no longer passes the answer through maybe_coroutine before issue_stream_attach: an attacher whose Deferred fires with a '
+                   'coroutine gets its (valid) answer reported as "not a Circuit" and nothing is sent' % names)
     md = [c for c in calls_in(ma) if dotted(c.func) in ('defer.maybeDeferred', 'maybeDeferred')]
     ok = len(md) == 1 and md[0].args and dotted(md[0].args[0]) == 'self._attacher.attach_stream' and len(md[0].args) >= 3 and dotted(md[0].args[1]) == ma.params[1]
     run.ob('R09.2', ma, ma.node, 'the attacher is consulted exactly once with the stream', ok, slot='consult-once', message='_maybe_attach consults the attacher %d times' % len(md))
@@ -374,6 +379,7 @@ RULES = [
 from ..selftest import M  # noqa: E402
 FT, FC = 'txtorcon/torstate.py', 'txtorcon/circuit.py'
 MUTANTS = [
+    M('answer-coroutine-not-awaited', FT, "        circ_d.addCallback(maybe_coroutine)\n", "", ['R09.2']),
     M('when-built-removed', FC, "        yield self._circuit.when_built()\n        connect_d", "        connect_d", ['R09.7']),
     M('none-test-by-truthiness', FT, "            if circ is None:\n", "            if not circ:\n", ['R09.4']),
     M('when-built-not-awaited', FC, "        yield self._circuit.when_built()\n        connect_d", "        self._circuit.when_built()\n        connect_d", ['R09.7']),
